@@ -1158,6 +1158,13 @@ func (this *rolzCodec2) Forward(src, dst []byte) (uint, uint, error) {
 
 		// Next chunk
 		for srcIdx < sizeChunk {
+			if dstIdx > len(src) {
+				// The output is already bigger than the input: give up before
+				// running past the end of dst (incompressible data can expand
+				// by more than the margin provided by MaxEncodedLen)
+				return uint(startChunk + srcIdx), uint(dstIdx), errors.New("ROLZX codec forward transform skip: no compression")
+			}
+
 			re.setContext(_ROLZ_LITERAL_CTX, buf[srcIdx-1])
 			var key uint32
 
